@@ -287,7 +287,7 @@ inductive Slash (A : Type) where
   | invalidRange              -- the range constructor threw
   | ok (mask : A) (r : Range A)
 
-/-- `IPv4Range operator/(const IPv4Address& addr, int mask)` -/
+/-- `IPv4Range operator/(const IPv4Address& addr, int mask)` for `mask ≥ 0` (see `slash4I` for the sign test) -/
 def slash4 (a : Nat) (p : Nat) : Slash Nat :=
   if p > 32 then .logicError else
   let m := V4.fromPrefixLength p
@@ -303,5 +303,9 @@ def slashBuf (k : Nat) (a : Buf) (p : Nat) : Slash Buf :=
   match Range.fromMask bufOps a m with
   | none => .invalidRange
   | some r => .ok m r
+
+/-- the `int mask` parameter as it arrives: `if (mask < 0 || mask > 32) throw std::logic_error(…)` comes first -/
+def slash4I (a : Nat) (p : Int) : Slash Nat := if p < 0 then .logicError else slash4 a p.toNat
+def slashBufI (k : Nat) (a : Buf) (p : Int) : Slash Buf := if p < 0 then .logicError else slashBuf k a p.toNat
 
 end Tins.Addr
